@@ -13,7 +13,10 @@ package main
 // //go:norace and touches only fixed-size package variables.
 
 import (
+	"os"
 	"runtime"
+
+	hook "github.com/pion/rtcp/zz_simhook"
 )
 
 const (
@@ -73,8 +76,10 @@ var (
 	sWaitCh    [maxTasks]int16
 	sWaitIdx   [maxTasks]int16
 	sLocalY    [maxTasks]uint32
-	sParkSite  [maxTasks]int32 // site at which the task is parked; -1 = operation boundary
-	sOpLabel   [maxTasks]int32 // label of the operation the task is executing
+	sCurOp     [maxTasks]uint32 // index of the program entry the task is executing
+	sYInOp     [maxTasks]uint32 // counted yields inside that entry (switch points are addressed as (op, y))
+	sParkSite  [maxTasks]int32  // site at which the task is parked; -1 = operation boundary
+	sOpLabel   [maxTasks]int32  // label of the operation the task is executing
 	sOpsDone   [maxTasks]int32
 	sRng       uint64
 	sStep      uint64
@@ -86,6 +91,8 @@ var (
 	sGCRate    uint64
 	sGCFired   uint64
 	sDelivered uint64
+	sLockWaits uint64 // times a task found a lock held by a descheduled task
+	sPrioFloor int32
 
 	// strategy parameters
 	sP        uint64 // random: switch with probability 1/sP
@@ -153,6 +160,17 @@ func yieldHook(site int) {
 		}
 		return
 	}
+	if site == -2 {
+		blockedYield(sCur)
+		return
+	}
+	if hook.NoPreempt > 0 {
+		// inside a sync.Once-style callback: no task switch until it returns
+		if site >= 0 && site < len(siteHit) {
+			siteHit[site]++
+		}
+		return
+	}
 	if site >= 0 {
 		sOpHash[sCur] = (sOpHash[sCur] ^ uint64(site+1)) * 0x100000001b3
 		if site < len(siteHit) {
@@ -168,10 +186,72 @@ func yieldHook(site int) {
 	step(sCur, site)
 }
 
+// blockedYield is reached from a rewritten Lock loop: the lock is held by a task
+// that was descheduled inside its critical section, so another task must run.
+//
+//go:norace
+func blockedYield(me int) {
+	sStep++
+	sLockWaits++
+	mixHash(uint64(me)+5000, sStep)
+	if sPendN > 0 {
+		deliverDue(false)
+	}
+	if sStallOn && sState[sStallT] == stFrozen && sStallT != me {
+		// the frozen task may be the lock holder
+		sState[sStallT] = stRunnable
+		sStallOn = false
+	}
+	var next int
+	switch sStrat {
+	case stratSeq, stratReplay:
+		to, hit := -1, false
+		if sStrat == stratReplay {
+			to, hit = replayNext(me, true)
+		}
+		if hit && to >= 0 {
+			next = to
+		} else {
+			// round-robin from me so that every other task gets its turn while we wait
+			next = -1
+			for i := 1; i < sN; i++ {
+				j := (me + i) % sN
+				if sState[j] == stRunnable {
+					next = j
+					break
+				}
+			}
+		}
+	case stratPCT:
+		// waiting on a lock with top priority would spin forever: drop below everyone
+		sPrioFloor--
+		sPrio[me] = sPrioFloor
+		next = highestPrio(false, me)
+	default:
+		next = runnableOther(me)
+	}
+	if next < 0 {
+		if sPendN > 0 {
+			deliverDue(true)
+			return
+		}
+		// every other task is blocked or done while a lock is held: the tree under test deadlocks on its own
+		os.Stderr.WriteString("simulation: task waits for a lock that no runnable task can release (deadlock inside the code under test)\n")
+		os.Exit(4)
+	}
+	recordSwitch(me, next, true)
+	sSwitches++
+	sCur = next
+	for sCur != me {
+		runtime.Gosched()
+	}
+}
+
 //go:norace
 func step(me int, site int) {
 	sStep++
 	sLocalY[me]++
+	sYInOp[me]++
 	mixHash(uint64(me), uint64(int64(site)))
 	if sPendN > 0 {
 		deliverDue(false)
@@ -237,11 +317,11 @@ func highestPrio(includeMe bool, me int) int {
 func replayNext(me int, forced bool) (int, bool) {
 	q := sRepl[me]
 	p := sReplPos[me]
-	for p < len(q) && q[p].At < sLocalY[me] {
+	for p < len(q) && (q[p].Op < sCurOp[me] || (q[p].Op == sCurOp[me] && q[p].At < sYInOp[me])) {
 		p++
 	}
 	sReplPos[me] = p
-	if p < len(q) && q[p].At == sLocalY[me] && q[p].Forced == forced {
+	if p < len(q) && q[p].Op == sCurOp[me] && q[p].At == sYInOp[me] && q[p].Forced == forced {
 		sReplPos[me] = p + 1
 		to := int(q[p].To)
 		if to >= 0 && to < sN && to != me && sState[to] == stRunnable {
@@ -339,7 +419,7 @@ func stallCheck() {
 //go:norace
 func recordSwitch(me, next int, forced bool) {
 	if sRecN < maxSwRec {
-		sRec[sRecN] = SwRec{T: int8(me), To: int8(next), Forced: forced, At: sLocalY[me]}
+		sRec[sRecN] = SwRec{T: int8(me), To: int8(next), Forced: forced, Op: sCurOp[me], At: sYInOp[me]}
 		sRecN++
 	} else {
 		sRecTrunc = true
@@ -428,6 +508,14 @@ func schedOpBoundary(me int, label int32) {
 //go:norace
 func schedSetLabel(me int, label int32) {
 	sOpLabel[me] = label
+}
+
+// schedBeginOp tells the scheduler that task me starts program entry i.
+//
+//go:norace
+func schedBeginOp(me int, i int) {
+	sCurOp[me] = uint32(i)
+	sYInOp[me] = 0
 }
 
 // schedFinish marks the task done and hands the token on.
@@ -557,6 +645,8 @@ func schedReset(n int, c *SchedConfig) {
 	sGCRate = c.GCRate
 	sGCFired = 0
 	sDelivered = 0
+	sLockWaits = 0
+	sPrioFloor = -100
 	sStepCap = c.StepCap
 	if sStepCap == 0 {
 		sStepCap = 400000
@@ -572,6 +662,8 @@ func schedReset(n int, c *SchedConfig) {
 	for i := 0; i < maxTasks; i++ {
 		sState[i] = stNone
 		sLocalY[i] = 0
+		sCurOp[i] = 0
+		sYInOp[i] = 0
 		sParkSite[i] = -1
 		sOpLabel[i] = -1
 		sOpsDone[i] = 0
